@@ -161,6 +161,14 @@ func registerZZ(in *Interp) {
 		}
 		return nil
 	}
+	I[zz+"MapOrderSite"] = func(in *Interp, fr *frame, fn *ssa.Function, a []value) value {
+		in.run.mapSite = int(in.intArg(a[0], "site"))
+		in.run.mapSiteBudget = int(in.intArg(a[1], "budget"))
+		if in.run.mapOrderMax == 0 {
+			in.run.mapOrderMax = 4
+		}
+		return nil
+	}
 	I[zz+"MapOrderMax"] = func(in *Interp, fr *frame, fn *ssa.Function, a []value) value {
 		in.run.mapOrderMax = int(in.intArg(a[0], "n"))
 		return nil
